@@ -239,7 +239,7 @@ func (s *Service) MarshalJSON() ([]byte, error) {
 		Name:              s.name,
 		ActiveTargets:     active.Targets().Names(),
 		RolloutTargets:    rolloutTargets,
-		Options:           s.options,
+		Options:           s.currentOptions(),
 		TargetOptions:     s.targetOptions,
 		PauseController:   s.pauseController,
 		RolloutController: rolloutController,
@@ -443,7 +443,7 @@ func (s *Service) serviceRequestWithTarget(w http.ResponseWriter, r *http.Reques
 		return
 	}
 
-	if !s.options.TLSEnabled && r.TLS != nil {
+	if tlsEnabled, _ := s.tlsSettings(); !tlsEnabled && r.TLS != nil {
 		SetErrorResponse(w, r, http.StatusServiceUnavailable, nil)
 		return
 	}
@@ -460,7 +460,34 @@ func (s *Service) serviceRequestWithTarget(w http.ResponseWriter, r *http.Reques
 }
 
 func (s *Service) shouldRedirectToHTTPS(r *http.Request) bool {
-	return s.options.TLSEnabled && s.options.TLSRedirect && r.TLS == nil
+	tlsEnabled, tlsRedirect := s.tlsSettings()
+	return tlsEnabled && tlsRedirect && r.TLS == nil
+}
+
+// The TLS settings of a service that does not serve the root path follow
+// those of the root path service of its host, so they can change while the
+// service is handling requests.
+
+func (s *Service) tlsSettings() (enabled bool, redirect bool) {
+	s.serviceLock.Lock()
+	defer s.serviceLock.Unlock()
+
+	return s.options.TLSEnabled, s.options.TLSRedirect
+}
+
+func (s *Service) setTLSSettings(enabled bool, redirect bool) {
+	s.serviceLock.Lock()
+	defer s.serviceLock.Unlock()
+
+	s.options.TLSEnabled = enabled
+	s.options.TLSRedirect = redirect
+}
+
+func (s *Service) currentOptions() ServiceOptions {
+	s.serviceLock.Lock()
+	defer s.serviceLock.Unlock()
+
+	return s.options
 }
 
 func (s *Service) handlePausedAndStoppedRequests(w http.ResponseWriter, r *http.Request) bool {
